@@ -22,6 +22,10 @@ def run(tier, seed):
     cov["transitions"] += nl
     cov["traces_validated_against_impl"] += nl
     cov["evaluations"] += nl
+    rd = pool.run_tasks("checks.c01:derived_task", ["parent-first", "child-first"], fresh_each=True)
+    for r in rd:
+        viols.extend(r["violations"])
+    cov["transitions"] += sum(r["n"] for r in rd)
     # every single-byte edit / truncation of C02's corpus, judged for the verdict (character-level neighbours of valid scripts)
     from . import c02
     rb = pool.run_tasks("checks.c02:byte_task", [(i, False, False, "c01") for i in range(len(c02.CORPUS))])
@@ -36,7 +40,36 @@ def run(tier, seed):
     return dict(violations=viols, coverage=cov, harness_errors=harness, assumptions=PC.ASSUMPTIONS)
 
 
+def derived_task(order):
+    """the language as extended through add_commands with classes derived from STOCK commands (other arity than their parent): the
+    verdict for parent and child must not depend on which of them the process met first (runs in a fresh process per order)"""
+    from mc import parser_engine as E
+    from mc.refsieve import table as T
+    from . import c13
+    ns = E.seams.load()
+    c13.ensure_custom(ns)
+    tab = dict(T.COMMANDS)
+    tab["fwdtwo"] = dict(role="action", ext=None, slots=[], pos=["s", "s"], optfirst=False, tests=0, block=False, follows=None)
+    tab["existsin"] = dict(role="test", ext=None, slots=[], pos=["sl", "s"], optfirst=False, tests=0, block=False, follows=None)
+    parent = [("redirect", "STR", ";"), ("if", "exists", "LIST2", "{", "keep", ";", "}")]
+    child = [("fwdtwo", "STR", "STR", ";"), ("if", "existsin", "LIST1", "STR", "{", "keep", ";", "}"), ("fwdtwo", "STR", "STR", "STR", ";"),
+             ("if", "existsin", "STR", "STR", "STR", "{", "}"), ("redirect", "STR", ";", "fwdtwo", "STR", "STR", ";"), ("fwdtwo", "STR", "STR", ";", "redirect", "STR", ";")]
+    seq = (parent + child + parent) if order == "parent-first" else (child + parent + child)
+    viols = []
+    n = 0
+    for w in seq:
+        c = E.execute(w, commands=(tab, T.KNOWN_EXTENSIONS), want_config=False)
+        n += 1
+        for v in E.oracle_c01(c):
+            v["signature"] = v["signature"][:2] + ["derived-from-stock", order] + v["signature"][4:]
+            v["derived_order"] = order
+            viols.append(v)
+    return dict(n=n, violations=viols)
+
+
 def replay(payload):
+    if payload.get("derived_order"):
+        return pool.run_tasks("checks.c01:derived_task", [payload["derived_order"]], fresh_each=True)[0]["violations"]
     if payload.get("case", {}).get("ladder"):
         from . import c03
         return c03.replay(payload)
